@@ -26,7 +26,8 @@ ASSUMPTIONS = ["flags c, d keep their value during the step", "loop bounds are s
 LEVEL_TEXT = ("Every phase in the stated slices is lowered by the real code for every storage order and its executed "
               "leaves (with loop indices) are compared, under all guard valuations, with the set the phase declares; "
               "order is checked against the transitive dependency relation.")
-LEVEL_NOTE = "Trusted: rtree_trace (tree walker) and the 20-line expected-leaf computation. n<=4 statements."
+LEVEL_NOTE = ("Trusted: rtree_trace (tree walker) and the 20-line expected-leaf computation. Complete enumeration for n<=4 "
+              "statements; four fixed large phases (1200-4000 statements) as a size-corner probe.")
 
 KINDS = ["A0", "A1", "A1v", "A2", "N", "Y", "F", "C"]
 GUARDS = ["T", "F", "c", "!c", "d", "c&d", "!!c"]
@@ -334,8 +335,56 @@ def slices(tier):
     return out
 
 
+def run_large(acc, only=None):
+    """size corner: phases far above the enumerated sizes -- long chains, a ladder, a wide fan-in, with guards and
+    loops sprinkled in -- lowered once each; executed set, loop nests and order checked with the same walker"""
+    from dagrt.codegen.dag_ast import create_ast_from_phase
+    from dagrt.language import DAGCode, ExecutionPhase
+    for shape, n in (("chain", 1500), ("chain", 4000), ("ladder", 1200), ("fan-in", 1500)):
+        if only is not None and only != [shape, n]:
+            continue
+
+        def deps(i):
+            if shape == "chain":
+                return [i - 1] if i else []
+            if shape == "fan-in":
+                return list(range(n - 1)) if i == n - 1 else []
+            return [j for j in (i - 1, i - 2) if j >= 0]
+        kinds = [("A1" if i % 7 == 3 else "A0") for i in range(n)]
+        guards = [("c" if i % 5 == 1 else "!c" if i % 11 == 2 else "T") for i in range(n)]
+        stmts = [make_stmt(i, kinds[i], guards[i], ["s%d" % j for j in deps(i)]) for i in range(n)]
+        dag = DAGCode({"ph": ExecutionPhase(name="ph", next_phase="ph", statements=list(reversed(stmts)))}, "ph")
+        acc.evaluations += 1
+        problem = None
+        try:
+            with kernel.time_limit(300):
+                tree = create_ast_from_phase(dag, "ph")
+            for val in (VALS[0], VALS[3]):
+                got = rtree_trace(tree, val)
+                want = expected_leaves(n, kinds, guards, val)
+                if sorted(got) != sorted(want):
+                    problem = "executed leaves differ from the declared ones (%d vs %d) under %s" % (
+                        len(got), len(want), val)
+                    break
+                first = {}
+                for k, x in enumerate(got):
+                    first.setdefault(x[0], k)
+                bad = [(i, j) for i in range(n) for j in deps(i)
+                       if "s%d" % i in first and "s%d" % j in first and first["s%d" % j] > first["s%d" % i]]
+                if bad:
+                    problem = "s%d runs before its dependency s%d" % bad[0]
+                    break
+        except BaseException as e:
+            problem = "%s: %s" % (type(e).__name__, str(e)[:150])
+        if problem:
+            acc.violation("large-phase", "C05/large-phase:%s of %d statements" % (shape, n), {"large": [shape, n]},
+                          "well-formed phase: a %s of %d statements: %s" % (shape, n, problem))
+        else:
+            acc.nontrivial += 1
+
+
 def shards(tier, seed):
-    out = []
+    out = [{"slice": "@large"}]
     for name, n, _, _, _ in slices(tier):
         m = 1 if n <= 2 else (16 if n == 3 else 64)
         for r in range(m):
@@ -411,6 +460,8 @@ def record(acc, r, n, edges, kinds, guards):
 
 
 def run_shard(desc, acc):
+    if desc["slice"] == "@large":
+        return run_large(acc)
     sl = [s for s in slices(desc["tier"]) if s[0] == desc["slice"]][0]
     name, n, kinds_f, guards_f, pmode = sl
     perms = perms_for(n, pmode)
@@ -441,6 +492,10 @@ def run_shard(desc, acc):
 
 def replay(witness):
     w = witness
+    if "large" in w:
+        acc = kernel.Acc()
+        run_large(acc, only=w["large"])
+        return acc.violations
     r = check_case(w["n"], [tuple(e) for e in w["edges"]], w["kinds"], w["guards"], perms_for(w["n"], "all"))
     if r is None:
         return []
